@@ -104,3 +104,29 @@ def replay_all(ctx):  # noqa: E302
         except Exception:
             still = True
         ctx.reproduce_known(key, still)
+
+
+# ---------------------------------------------------------------- C10: onnxruntime int64 reduction kernels
+@witness("C10", "sum/*/large-magnitudes/exported-model-differs-from-numpy")
+def _():
+    a = np.array([9007199254740993, 1], dtype=np.int64)
+    return _ne(ndx.sum(ndx.asarray(a)).to_numpy(), a.sum())
+
+
+@witness("C10", "prod/*/large-magnitudes/exported-model-differs-from-numpy")
+def _():
+    a = np.array([2 ** 40, 2 ** 30], dtype=np.int64)
+    with np.errstate(over="ignore"):
+        return _ne(ndx.prod(ndx.asarray(a)).to_numpy(), a.prod())
+
+
+@witness("C10", "max/*/large-magnitudes/exported-model-differs-from-numpy")
+def _():
+    a = np.array([[4294967295, 0, 5], [4294967295, 0, 0]], dtype=np.int64)
+    return _ne(ndx.max(ndx.asarray(a)).to_numpy(), a.max())
+
+
+@witness("C10", "min/*/large-magnitudes/exported-model-differs-from-numpy")
+def _():
+    a = np.array([[4294967295, 0, 5], [4294967295, 0, 0]], dtype=np.int64)
+    return _ne(ndx.min(ndx.asarray(a)).to_numpy(), a.min())
